@@ -216,6 +216,7 @@ def main():
     # correspondence (tolerant: the transform arithmetic is done in floats by the implementation)
     model, log = eval_model(PID, [(dp, mcmds) for dp, _, mcmds, _, _ in results], per=20, timeout=2400)
     validated = 0
+    ties_cut = 0
     if model is None:
         run.log("model evaluation failed:\n" + log)
         run.violation("the model (coq/model/Builder.v) could not be evaluated", dict(log=log[-1500:], theorem="C04_words"), no_input=not found)
@@ -224,6 +225,7 @@ def main():
             ok = True
             for si, (mstep, istep) in enumerate(zip(mres, steps)):
                 bad = None
+                tie = False
                 if mstep["exc"] != istep["exc"]:
                     bad = "exception: model %s, implementation %s" % (mstep["exc"], istep["exc"])
                 elif any(l is None for l in istep["lines"]) or len(mstep["lines"]) != len(istep["lines"]):
@@ -238,12 +240,19 @@ def main():
                             common_ok = all(abs(mk[k] - ik[k]) <= Fraction(1, 10 ** dp) + abs(mk[k]) / 10 ** 9 for k in set(mk) & set(ik))
                             if not (common_ok and diff <= {"X", "Y", "Z"} and near_tie(mcmds, steps, si, diff, dp)):
                                 bad = "emitted words: model %s, implementation %r" % (fmt_lines([ml]), il)
+                            else:
+                                tie = True
                 if bad:
                     ok = False
                     run.violation("model and implementation disagree at step %d %r: %s" % (si, cmd_json(cmds[si]), bad),
                                   dict(dp=dp, history=[cmd_json(c) for c in cmds[:si + 1]],
                                        theorem="C04_words / C04_machine (coq/props/C04.v); correspondence within one unit of the last place"),
                                   no_input=True)
+                    break
+                if tie and cmds[si][0] == "probe":
+                    # binary64 noise decided that an axis "moved" by 0.000: the word is harmless, but a probe then marks
+                    # that axis unknown, so the exact model and the implementation legitimately part ways from here on
+                    ties_cut += 1
                     break
             validated += ok
     proof_broken_violation(run, st, found)
@@ -252,7 +261,8 @@ def main():
                        "moves, rapids, probes and polylines in both distance modes; the implementation's own matrix (read "
                        "through apply_transform) is handed to the model; words compared within one unit of the last place; "
                        "oracle: machine == transform(position) after every move. non-trivial = history that emits lines.")
-    run.finish(proof=st, extra=dict(input_distribution=dict(op_kinds=dist), traces_validated_against_impl=validated))
+    run.finish(proof=st, extra=dict(input_distribution=dict(op_kinds=dist), traces_validated_against_impl=validated,
+                                 histories_cut_at_a_float_noise_probe_tie=ties_cut))
 
 
 def near_tie(mcmds, steps, si, axes, dp):
